@@ -191,6 +191,18 @@ class Interp:
             return self.ev(e['e'], env, members)
         if k == 'lit':
             return int(e['cv']) if e.get('cv') is not None else _undef('literal')
+        if k == 'str':
+            return bytes(e.get('bytes') or [])
+        if k == 'initlist':
+            vals = [self.ev(a, env, members) for a in (e.get('args') or e.get('inits') or [])]
+            tn = (e.get('t') or '').replace('struct ', '').replace('const ', '').strip()
+            if self.facts is not None:
+                for c in self.facts.classes:
+                    if c.get('name') == tn or c.get('qn') == tn:
+                        fs = [f_['name'] for f_ in c.get('fields', [])]
+                        if len(fs) == len(vals):
+                            return dict(zip(fs, vals))
+            return tuple(vals)
         if k == 'cast':
             if e.get('cv') is not None and strip(e) is not None and strip(e).get('k') not in ('ref', 'member'):
                 return int(e['cv'])
@@ -212,6 +224,17 @@ class Interp:
                 if e['name'] in members:
                     return members[e['name']]
                 raise Unsupported('unbound member %s' % e['name'])
+            if b is not None and b.get('k') != 'this':
+                root = b
+                while root is not None and root.get('k') == 'member':
+                    root = strip(root.get('base'))
+                if root is not None and root.get('k') in ('ref', 'call', 'un'):
+                    try:
+                        bv = self.ev(e['base'], env, members)
+                    except Unsupported:
+                        bv = None
+                    if isinstance(bv, dict) and e.get('name') in bv:
+                        return bv[e['name']]
             path = member_path(e)
             if path is not None:
                 if path in members:
@@ -272,6 +295,10 @@ class Interp:
             # a copy / move / conversion wrapper around one value (T x = T{f()} before C++17): the value itself; the
             # arguments are evaluated first so that call hooks see the calls inside
             args = [self.ev(a, env, members) for a in (e.get('args') or [])]
+            if self.call_hook is not None:
+                r = self.call_hook(e, args, env, members)
+                if r is not None:
+                    return r
             if len(args) == 1:
                 return args[0]
             raise Unsupported('constructor %s with %d arguments' % (e.get('cname'), len(args)))
@@ -419,7 +446,7 @@ class Interp:
                         continue
                     self.ev(s_, env, members)
                     continue
-                if k in ('ref', 'lit', 'member', 'cast', 'paren', 'sub'):
+                if k in ('ref', 'lit', 'member', 'cast', 'paren', 'sub', 'autodtor', 'str'):
                     continue
                 raise Unsupported('statement kind %s' % k)
             t = B.get('term')
